@@ -209,4 +209,6 @@ def gen_hand(repo):
     return 'HandGen', '\n'.join(L)
 
 
-GENERATORS = [gen_worker, gen_hand]
+from tools.gen_schednodes import gen_schednodes  # noqa: E402  pylint: disable=wrong-import-position
+
+GENERATORS = [gen_worker, gen_hand, gen_schednodes]
